@@ -1207,6 +1207,111 @@ def duel_selftest(chk: Check):
                          f"({orc} by the property oracle)")
 
 
+# ----------------------------------------------------------------------------- batch-level suite (PER loss, priorities)
+_BATCH_AGENT = []
+
+
+def gen_batch(rng: random.Random):
+    B = rng.choice([1, 1, 2, 3, 4, 5, 8])
+    dy = lambda: rng.randint(0, 64) / 16.0
+    return {"kind": "batch", "B": B, "per": rng.random() < 0.7, "nstep_on": rng.random() < 0.6,
+            "combined": rng.random() < 0.5, "l1": [dy() for _ in range(B)], "ln": [dy() for _ in range(B)],
+            "w": [rng.choice([0.0, 0.25, 0.5, 0.75, 1.0]) for _ in range(B)],
+            "idx": [rng.randint(0, 99) for _ in range(B)], "wshape": rng.choice(["col", "col", "flat"])}
+
+
+def batch_case_run(case):
+    """real `learn` on a batch whose element-wise losses are GIVEN (`_dqn_loss` of the instance replaced by a table:
+    l1 for the 1-step batch, ln for the n-step batch, told apart by the observation id), against the property:
+    loss = (1/B) sum_i w_i l_i under PER / (1/B) sum_i l_i without, priorities = l_i + prior_eps in the order of
+    idxs, shapes (B,).  Returns the list of problems."""
+    from tensordict import TensorDict
+    B = case["B"]
+    if not _BATCH_AGENT:
+        _BATCH_AGENT.append(make_agent(5, -2.0, 2.0, 0.5, 3, False, 4, 2))
+    agent = _BATCH_AGENT[0]
+    agent.combined_reward = bool(case["combined"])
+
+    def stub(states, actions, rewards, next_states, dones, gamma):
+        vals = case["l1"] if float(states.reshape(B, -1)[0, 0]) < 1000 else case["ln"]
+        return torch.tensor(vals, dtype=torch.float32, requires_grad=True).clone()
+    agent._dqn_loss = stub
+
+    def td(base, with_w):
+        d = {"obs": torch.tensor([[float(base + i)] for i in range(B)]), "action": torch.zeros(B, 1),
+             "reward": torch.zeros(B, 1), "next_obs": torch.tensor([[float(base + i)] for i in range(B)]),
+             "done": torch.zeros(B, 1), "idxs": torch.tensor([int(i) for i in case["idx"]])}
+        if with_w:
+            w = torch.tensor([float(x) for x in case["w"]])
+            d["weights"] = w.unsqueeze(1) if case["wshape"] == "col" else w
+        return TensorDict(d, batch_size=[B])
+    try:
+        out = agent.learn(td(0, case["per"]), n_experiences=td(1000, False) if case["nstep_on"] else None,
+                          per=case["per"])
+    except Exception as e:  # noqa: BLE001
+        return [f"learn raised {type(e).__name__}: {e}"[:300]]
+    finally:
+        del agent._dqn_loss
+    loss, idxs, prios = out
+    l1, ln = [F(x) for x in case["l1"]], [F(x) for x in case["ln"]]
+    el = l1 if not case["nstep_on"] else ([a + b for a, b in zip(l1, ln)] if case["combined"] else ln)
+    want = sum((F(w) * x for w, x in zip(case["w"], el)), F(0)) / B if case["per"] else sum(el, F(0)) / B
+    problems = []
+    if abs(float(loss) - float(want)) > 1e-5 * (1 + abs(float(want))):
+        col = sum(el, F(0)) * sum((F(w) for w in case["w"]), F(0)) / (B * B)
+        problems.append(f"scalar loss {float(loss)!r} is not the batch mean of w_i*l_i = {float(want)!r} "
+                        f"(per={case['per']}; the (B,B) broadcast of a weight column would give {float(col)!r})")
+    if case["per"]:
+        pr = None if prios is None else np.asarray(prios)
+        if pr is None or pr.shape != (B,):
+            problems.append(f"priorities have shape {None if pr is None else pr.shape}, expected ({B},)")
+        else:
+            for i in range(B):
+                if abs(float(pr[i]) - float(el[i]) - PRIOR_EPS) > 1e-5 * (1 + float(el[i])):
+                    problems.append(f"priority {i} is {float(pr[i])!r}, expected l_{i} + prior_eps = "
+                                    f"{float(el[i]) + PRIOR_EPS!r}")
+                    break
+                if not float(pr[i]) > 0:
+                    problems.append(f"priority {i} is {float(pr[i])!r}, not > 0")
+                    break
+    elif prios is not None:
+        problems.append("priorities returned without PER")
+    want_idx = case["idx"] if (case["per"] or case["nstep_on"]) else None
+    got_idx = None if idxs is None else [int(x) for x in np.asarray(idxs).reshape(-1)]
+    if got_idx != want_idx:
+        problems.append(f"returned idxs {got_idx} are not the batch's own {want_idx}")
+    return problems
+
+
+def run_batch(chk: Check, corpus_cases):
+    n = 60 if chk.tier == "quick" else 800
+    cases = [(c, name) for c, name in corpus_cases] + [(gen_batch(chk.rng), None) for _ in range(n)]
+    n_bad = 0
+    for case, origin in cases:
+        problems = batch_case_run(case)
+        chk.case(case, nontrivial=case["per"] and case["B"] > 1 and len(set(case["w"])) > 1,
+                 sample={"suite": "batch", "B": case["B"], "per": case["per"], "nstep_on": case["nstep_on"],
+                         "combined": case["combined"]},
+                 tags=["batch-per" if case["per"] else "batch-plain", f"batch-weights-{case['wshape']}"])
+        if problems:
+            n_bad += 1
+            keep = list(range(case["B"]))
+            if case["B"] > 1:
+                def bad(k):
+                    c = dict(case, B=len(k), **{f: [case[f][i] for i in k] for f in ("l1", "ln", "w", "idx")})
+                    return bool(k) and bool(batch_case_run(c))
+                keep = ddmin(keep, bad) or keep
+            small = dict(case, B=len(keep), **{f: [case[f][i] for i in keep] for f in ("l1", "ln", "w", "idx")})
+            p2 = batch_case_run(small)
+            if not p2:
+                small, p2 = case, problems
+            chk.violation("batch level of learn: " + p2[0],
+                          dict(small, oracle_problems=p2, origin=origin,
+                               correspondence="harness/c18.py (batch suite) vs elemLoss / scalarLoss / newPriorities of "
+                                              "Model/C51.lean"))
+    chk.suite("learn-batch-level-per-loss-and-priorities", len(cases), n_bad)
+
+
 # ----------------------------------------------------------------------------- check
 def pre_gate(chk: Check) -> None:
     """Regenerate lean/Gen/C51Gen.lean from the source text of the tree under test (before the Lean gate) and
@@ -1214,6 +1319,16 @@ def pre_gate(chk: Check) -> None:
     (Props/C18.lean, `C18_source_translation_*`)."""
     import common
     import py2lean_c51
+    import py2lean_c51batch
+    import py2lean_dueling
+    # every gate below builds Props.C18, which imports all three generated files: write them all first, so that none
+    # of them is a stale translation of another tree when the first gate runs
+    for mod, rel in ((py2lean_c51, "Gen/C51Gen.lean"), (py2lean_dueling, "Gen/DuelingGen.lean"),
+                     (py2lean_c51batch, "Gen/C51BatchGen.lean")):
+        try:
+            mod.write_if_changed(mod.translate(common.REPO)[0], common.LEAN_DIR / rel)
+        except mod.Unsupported:
+            pass
     common.translation_gate(chk, py2lean_c51, "Gen/C51Gen.lean", ["Gen.C51Gen", "Proofs.C51GenEq", "Props.C18"],
                             "support / delta_z of __init__, the categorical projection and loss of _dqn_loss per batch "
                             "row, and the 1-step / n-step combination, indices and priorities of learn")
@@ -1223,6 +1338,11 @@ def pre_gate(chk: Check) -> None:
                             "DuelingDistributionalMLP.forward per batch row (dueling combination, soft-max, the 1e-3 "
                             "clamp, expectation over the support, log_softmax), the widths / attributes its __init__ "
                             "sets, and how RainbowQNetwork builds, rebuilds and calls the head")
+    import py2lean_c51batch
+    common.translation_gate(chk, py2lean_c51batch, "Gen/C51BatchGen.lean",
+                            ["Gen.C51BatchGen", "Proofs.C51BatchGenEq", "Props.C18"],
+                            "the batch level of learn with shapes: combination of the 1-step / n-step element-wise "
+                            "losses, importance weights, mean, returned indices and priorities")
 
 
 def run(chk: Check) -> None:
@@ -1248,7 +1368,8 @@ def run(chk: Check) -> None:
         "decoy tables of the wrong network change the read-back)",
         "probe read-out: with log p = -e_k the element-wise loss equals proj[:, k] (it is the loss formula itself)",
         "all stub inputs are dyadic with <= 22 significant bits in every intermediate, so float32 = exact",
-        "scalar loss under PER (importance weights) is outside the property and not compared",
+        "stub / real suites: the scalar loss under PER (importance weights) is not compared there; the batch suite compares it (given element-wise losses through an instance-level `_dqn_loss` table, dyadic, tolerance 1e-5) together "
+        "with the priorities, their shape (B,) and the order of idxs",
         "duel suite: exp / log values handed to the model are Python math's float64 results (relative error 1e-16); "
         "the model is exact on them; forward hooks replace / record only the OUTPUT of head.model and "
         "head.advantage_net, the real DuelingDistributionalMLP.forward / RainbowQNetwork.forward run unchanged",
@@ -1259,10 +1380,14 @@ def run(chk: Check) -> None:
 
     cases = []
     duel_corpus = []
+    batch_corpus = []
     for f in sorted((ROOT / "corpus" / "C18").glob("*.json")):
         c = json.loads(f.read_text())
         if c.get("kind") == "duel":
             duel_corpus.append((c, f.name))
+            continue
+        if c.get("kind") == "batch":
+            batch_corpus.append((c, f.name))
             continue
         cases.append((c, ["corpus"], f.name))
     cases.append((overflow_probe_case(True), ["probe-overflow"], "probe"))
@@ -1325,6 +1450,7 @@ def run(chk: Check) -> None:
     chk.suite("c51-stub-projection-and-learn", n_stub_run, n_stub_diff)
     chk.suite("c51-real-networks-oracle", n_real_run, n_real_bad)
     run_duel(chk, duel_corpus)
+    run_batch(chk, batch_corpus)
     if not quick:
         selftest(chk)
         duel_selftest(chk)
@@ -1422,6 +1548,13 @@ def replay(chk: Check, path: str) -> int:
     c = c.get("replay", c)
     case = {k: v for k, v in c.items() if k not in ("impl", "model", "oracle_problems", "correspondence",
                                                     "theorems", "origin")}
+    if case.get("kind") == "batch":
+        problems = batch_case_run(case)
+        print(json.dumps({"oracle_problems": problems}, indent=1))
+        if problems:
+            print(f"VIOLATION property=C18 replay={path}")
+            return 1
+        return 0
     if case.get("kind") == "duel":
         case = {k: v for k, v in case.items() if k != "diff"}
         res = duel_case_run(chk, case)
